@@ -284,7 +284,7 @@ pub fn apply_setters(mut b: InstantiateBuilder, spec: &str) -> (InstantiateBuild
         match k {
             "l" => b = b.with_label(String::from_utf8_lossy(&unhex(v)).to_string()),
             "a" => b = b.with_admin(String::from_utf8_lossy(&unhex(v)).to_string()),
-            "f" => b = b.with_funds(if v == "0" { vec![] } else { vec![Coin::new(v.parse::<u128>().unwrap_or(0), "utok")] }),
+            "f" => b = b.with_funds(coins_multi(v)),
             "s" => salt = Some(unhex(v)),
             _ => {}
         }
@@ -360,7 +360,7 @@ pub fn show_resp<C: std::fmt::Debug, E: std::fmt::Display>(r: Result<Response<C>
             show_attrs(&resp.attributes),
             resp.messages.len(),
             resp.events.len(),
-            resp.data.as_ref().map(|d| d.to_base64()).unwrap_or_else(|| "-".into()),
+            resp.data.as_ref().map(|d| hex(d.as_slice())).unwrap_or_else(|| "-".into()),
             String::from_utf8_lossy(&storage.get(b"ran").unwrap_or_default())
         ),
         Err(e) => format!("err {}", e),
